@@ -160,7 +160,7 @@ func vpNewWorld(plus bool) *vpWorld {
 		EventRecorder:  record.NewFakeRecorder(10000),
 		MustExtractGVK: mustExtractGVK,
 		ProtectedPorts: map[int32]string{9113: "MetricsPort", 8081: "HealthPort"},
-		PlusSecrets:    map[types.NamespacedName][]graph.PlusSecretFile{},
+		PlusSecrets:    vpPlusSecrets(plus),
 	})
 	w.su = &vpGroupUpdater{upd: frameworkStatus.NewUpdater(w.k8s, logr.Discard())}
 	w.h = newEventHandlerImpl(eventHandlerConfig{
@@ -170,7 +170,7 @@ func vpNewWorld(plus bool) *vpWorld {
 		statusUpdater:                 w.su,
 		processor:                     w.proc,
 		serviceResolver:               resolver.NewServiceResolverImpl(w.k8s),
-		generator:                     ngxcfg.NewGeneratorImpl(plus, &ngfConfig.UsageReportConfig{}, logr.Discard()),
+		generator:                     ngxcfg.NewGeneratorImpl(plus, &ngfConfig.UsageReportConfig{SecretName: "nplus-license", Endpoint: "product.connect.nginx.com"}, logr.Discard()),
 		k8sClient:                     w.k8s,
 		k8sReader:                     w.k8s,
 		logLevelSetter:                newZapLogLevelSetter(zap.NewAtomicLevel()),
@@ -188,6 +188,27 @@ func vpNewWorld(plus bool) *vpWorld {
 	// the NGF-fronting Service is looked up on every status update
 	_ = w.k8s.Create(context.Background(), &apiv1.Service{ObjectMeta: metav1.ObjectMeta{Name: "nginx-gateway", Namespace: vpPodNS}})
 	return w
+}
+
+func vpPlusSecrets(plus bool) map[types.NamespacedName][]graph.PlusSecretFile {
+	m := map[types.NamespacedName][]graph.PlusSecretFile{}
+	if plus {
+		m[types.NamespacedName{Namespace: vpPodNS, Name: "nplus-license"}] = []graph.PlusSecretFile{
+			{FieldName: plusLicenseField, Type: graph.PlusReportJWTToken},
+		}
+	}
+	return m
+}
+
+// vpPlusEvents: the usage-report Secret a Plus deployment is started with.
+func (w *vpWorld) vpPlusEvents() []interface{} {
+	if !w.plus {
+		return nil
+	}
+	return []interface{}{w.Apply(&apiv1.Secret{
+		ObjectMeta: metav1.ObjectMeta{Namespace: vpPodNS, Name: "nplus-license"},
+		Data:       map[string][]byte{plusLicenseField: []byte("jwt-token")},
+	})}
 }
 
 // vpBaseEvents are the CRD-metadata events every start-up listing contains (Gateway API CRDs exist).
